@@ -246,6 +246,11 @@ class HarnessError(RuntimeError):
     pass
 
 
+class NeverQuiesces(RuntimeError):
+    """The code under test keeps producing work past the step horizon (judged by the check, not a harness
+    failure)."""
+
+
 class SyncHarness:
     def __init__(self, spec, opts=None):
         self.spec = spec
@@ -412,7 +417,14 @@ class SyncHarness:
         if len(jobs) > 1:
             raise HarnessError('more than one runnable executor job: AIOSQLite should serialise them')
         out = [('job', j) for j in jobs]
-        evs = sorted(self.events, key=lambda e: e.n)
+        evs, first_note = [], {}
+        for e in sorted(self.events, key=lambda e: e.n):
+            if e.kind == 'notify':
+                # two status notifications for one address cannot overtake each other (same connection,
+                # the server emits them in order): only the oldest pending one is enabled
+                if first_note.setdefault(e.label, e) is not e:
+                    continue
+            evs.append(e)
         out += [('ev', e) for e in evs if not e.deferred and e.kind != 'grow']
         out += [('ev', e) for e in evs if e.kind == 'grow']
         out += [('ev', e) for e in evs if e.deferred]
@@ -437,9 +449,10 @@ class SyncHarness:
         """Run until nothing is enabled (true quiescence).  `chooser` decides at every choice point."""
         loop = self.loop
         early, defer, s_cost = self.opts['early'], self.opts['defer'], self.opts['s_cost']
+        step_limit, iter_limit = self.steps + max_steps, loop.iterations + 50 * max_steps
         while True:
-            if self.steps > max_steps:
-                raise HarnessError('step horizon reached: the sync never quiesces')
+            if self.steps > step_limit or loop.iterations > iter_limit:
+                raise NeverQuiesces(f'no quiescence after {max_steps} events / {50 * max_steps} loop iterations')
             en = self.enabled()
             if loop._ready:
                 if early and en:
@@ -543,7 +556,9 @@ class SyncHarness:
                 raised_in = f
         if not where and frames:
             where = frames[-1]
-        return (type(e).__name__, where, via, raised_in, str(e)[:120])
+        mod = type(e).__module__
+        name = type(e).__name__ if mod == 'builtins' else f'{mod}.{type(e).__name__}'
+        return (name, where, via, raised_in, str(e)[:120])
 
     def canon(self):
         """Canonical dump of the quiescent state: every wallet table, sorted, plus the in-memory fields the
@@ -620,7 +635,13 @@ def window(h, order, chooser, want_log=False):
         h.grow(h.target, order)
         if h.target + 1 < len(h.built.stages):
             h.arm_grow(h.target + 1)
-    h.drive(chooser)
+    try:
+        h.drive(chooser)
+    except NeverQuiesces as e:
+        return {'never_quiesces': str(e), 'obs': None, 'view': None, 'facts': set(h.facts), 'canon': None,
+                'stage_reached': h.stage, 'names': (h.name_of_addr, h.built.name_of), 'hd': h.hd,
+                'log': list(h.log[-200:]) if want_log else None, 'steps': h.steps - h.steps0,
+                'iterations': h.loop.iterations - h.iter0}
     obs = h.observe()
     chain = h.server.chain
     required = {name: h.hd[name][:ER.discoverable(chain, h.hd[name], GAPS[name])] for name in h.hd}
